@@ -157,9 +157,32 @@ pub fn eval_with_margin_opts(f: &v1::Function, state: &v1::State, o: &EvalOpts) 
     Ok((v, (eval_tol(raw.len(), deg, &abs) + underflow_allowance(&raw, &magv)) * o.scale + allowance))
 }
 
+thread_local! {
+    static BOUNDARY_OPEN: std::cell::Cell<bool> = const { std::cell::Cell::new(false) };
+}
+
+/// While this guard lives (on the current thread) a constraint value EXACTLY on the feasibility threshold is not decided
+/// by the reference model. C05's statement spells the comparison out (|f| < 1e-6, f < 1e-6) and asserts the boundary;
+/// the statements of the other properties that use the model (C06, C14) do not fix the tolerance or its strictness.
+pub struct BoundaryOpenGuard(bool);
+impl BoundaryOpenGuard {
+    #[allow(clippy::new_without_default)]
+    pub fn new() -> Self {
+        BoundaryOpenGuard(BOUNDARY_OPEN.with(|b| b.replace(true)))
+    }
+}
+impl Drop for BoundaryOpenGuard {
+    fn drop(&mut self) {
+        let old = self.0;
+        BOUNDARY_OPEN.with(|b| b.set(old));
+    }
+}
+
 fn holds(equality: i32, v: &Q, margin: f64, id: u64) -> Result<Option<bool>, MReject> {
     let atol = q(1e-6);
     let m = q(margin);
+    let open = BOUNDARY_OPEN.with(|b| b.get());
+    let margin = if open && margin == 0.0 { f64::MIN_POSITIVE } else { margin };
     match equality {
         EQ_ZERO => {
             let a = v.abs();
